@@ -699,18 +699,26 @@ def _zlib_status_whole(prog, chk, D5, zu, obody, ocond, vars_, sid, outer):
     input or produced output (both finite), Z_STREAM_END and the error states are sticky, and Z_BUF_ERROR says
     that nothing can be done with the input and the room there is - which, with all the input handed over, no
     later round can change, except when the call had no room at all (avail_out == 0 on entry) and the round
-    provides some.  One round is evaluated for every status x {no input left, input left} x {output room
+    provides some.  A loop that only looks at the room (`while (avail_out == 0)`) goes round once more after
+    Z_STREAM_END with the room used up: accepted when the next call is given room, for it then returns
+    Z_STREAM_END with room left, where the loop must leave.  One round is evaluated for every status x {no input left, input left} x {output room
     used up, room left}; the slice scenarios of the two-loop form do not exist here."""
     from ..feval import Lin, UNKNOWN
     where = locstr(outer)
 
-    def rearmed(ends):
-        """every continuing end state has given the stream a positive amount of output room"""
+    def rearmed(ends, in_left):
+        """every round that follows a continuing end state calls inflate() with a positive amount of output room
+        (set at the end of this round or at the start of the next)"""
         for r, e in ends:
             if r != 'continues':
                 continue
-            v = e.get(('member', sid, 'avail_out'), UNKNOWN)
-            if not (isinstance(v, int) and not isinstance(v, bool) and v > 0):
+            seen = []
+
+            def watch(ev2_):
+                ev2_.track_output, ev2_.inflate_entries = True, seen
+            _zlib_round(prog, zu, obody, ocond, vars_, sid, 0, False, exhausted=not in_left, in_left=in_left,
+                        preset=e, configure=watch)
+            if not seen or not all(isinstance(room, int) and not isinstance(room, bool) and room > 0 for _, room in seen):
                 return False
         return True
 
@@ -742,8 +750,13 @@ def _zlib_status_whole(prog, chk, D5, zu, obody, ocond, vars_, sid, outer):
                 elif cname == 'Z_OK':
                     # (no input left) progress was made in this call; the next one returns Z_BUF_ERROR at the latest
                     chk.ok(D5, inst + ' -> continues (progress was made, by contract)', where, site=inst)
-                elif cname == 'Z_BUF_ERROR' and full and rearmed(ends):
+                elif cname == 'Z_BUF_ERROR' and full and rearmed(ends, in_left):
                     chk.ok(D5, inst + ' (the call had no room) -> continues with fresh output room', where, site=inst)
+                elif cname == 'Z_STREAM_END' and full and rearmed(ends, in_left):
+                    # the loop asks for the room only; the next call has room, writes nothing and returns
+                    # Z_STREAM_END again: the state "output room left", which is evaluated on its own
+                    chk.ok(D5, inst + ' -> one more round with fresh output room (then: Z_STREAM_END, output room left)',
+                           where, site=inst)
                 elif cname == 'Z_STREAM_END':
                     chk.violation(D5, 'zlib_uncompress|Z_STREAM_END|continues|%s' % in_desc, where,
                                   '%s: the loop runs another round although the stream has ended; inflate makes no '
@@ -1188,7 +1201,14 @@ def container_call(ev, x, env):
         env[('size', cid)] = ev.binop('+', size, 1)
         moved()
     elif m == 'insert' and len(args) == 3:
-        pos, b, e = (ev.ev(a, env) for a in args)
+        def plain(a):
+            # an iterator converted to a const_iterator, a temporary bound to a reference: the same position
+            a = strip(a, explicit=True)
+            while a.get('kind') in ('CXXConstructExpr', 'MaterializeTemporaryExpr', 'CXXBindTemporaryExpr') and \
+                    len(children(a)) == 1:
+                a = strip(children(a)[0], explicit=True)
+            return a
+        pos, b, e = (ev.ev(plain(a), env) for a in args)
         n = ev.binop('-', e, b)
         at_end = ev.binop('==', pos, ev.binop('+', container_data(env, cid), size)) is True
         if hasattr(ev, 'appends'):
